@@ -72,6 +72,10 @@ pub(super) async fn run_pty_task(handle: &TaskHandle, ctx: TaskRunContext) {
                 return;
             }
         };
+    } else {
+        // No `cwd` argument: the task runs in the workspace root, not in the working directory
+        // of the serving process.
+        cmd.cwd(&config.workspace_root);
     }
     // provider credentials stay with the authority; an explicit `env` of the task still applies
     for name in rip_tools::secret_env_names() {
